@@ -192,23 +192,23 @@ def schedFinish (g : Sched.State) (cid : String) : Nat → Sched.State
 
 /-! ### steps -/
 
-/-- `watcher.Start` + `watcher.Watch`: the `created` answer is unconditional; the registration with
-the backend follows and, when refused, shows as a cancel with `compact_revision = 1`. -/
-def stepWatch (s : State) (name key : String) (rev : Int) : State × String :=
+/-- `watcher.Start` + `watcher.List` / `watcher.Watch` (`KB.Etcd.watchCreate`): the `created` answer is
+unconditional; a refused request (range-stream shape without both borders, /repo 5b8c053; a watch whose key
+does not start with "/") shows as a cancel with `compact_revision = 1`, so does a registration the backend
+refuses. The data of a streamed range (`rangeStream`) is not part of this suite's model: only its refusal is. -/
+def stepWatch (s : State) (name key stop : String) (rev : Int) : State × String :=
   let wid := s.ws.length + 1
-  let pfx := unhx key
-  if rev < 0 then
-    -- range stream (ListByStream) — not part of this suite's model
+  let refused : State × String :=
     ({ s with ws := s.ws ++ [{ name := name, wid := wid, canceled := true, compact := 1 }] }, s!"watch {name} created")
-  else if !isPureWatch pfx then
-    ({ s with ws := s.ws ++ [{ name := name, wid := wid, canceled := true, compact := 1 }] }, s!"watch {name} created")
-  else
-    let (ok, b) := doWatch s.st.cfg s.st.b wid pfx (toU64 rev)
+  match watchCreate (unhx key) (unhx stop) rev with
+  | .refused => refused
+  | .rangeStream _ _ _ => refused   -- (placeholder: the streamed data is not modelled here)
+  | .watch pfx r =>
+    let (ok, b) := doWatch s.st.cfg s.st.b wid pfx r
     if ok then
       ({ s with st := { s.st with b := b }, ws := s.ws ++ [{ name := name, wid := wid, registered := true }] },
        s!"watch {name} created")
-    else
-      ({ s with ws := s.ws ++ [{ name := name, wid := wid, canceled := true, compact := 1 }] }, s!"watch {name} created")
+    else refused
 
 def stepWevents (s : State) (name : String) : State × String :=
   match s.ws.find? (·.name == name) with
@@ -254,6 +254,8 @@ def step (s : State) (toks : List String) : State × String :=
         match backendCall (classify t) with
         | none => (s, txnLine (shapeTxn (classify t) (.error .other)))
         | some call =>
+          -- a write without a value is refused by the backend before it touches the store (runCall)
+          if call.emptyValue then (s, txnLine (shapeTxn (classify t) (.error .other))) else
           let n := g.g.done.length
           let g := (Sched.step g ("start" :: "c999" :: schedReq call)).1
           let g := schedFinish g "c999" 16
@@ -272,6 +274,7 @@ def step (s : State) (toks : List String) : State × String :=
       | some a, some call =>
         ({ s with pending := none, lastCall := some call }, s!"done {cid} {txnLine (shapeTxn sh a)}")
       | none, some call =>
+        if call.emptyValue then (s, s!"done {cid} {txnLine (shapeTxn sh (.error .other))}") else
         let n := g.g.done.length
         let (g, line) := Sched.step g ("start" :: cid :: schedReq call)
         match schedAnswer g (widOf cid) n with
@@ -299,7 +302,7 @@ def step (s : State) (toks : List String) : State × String :=
       | none => s.st.b
     (s, rangeLine (shimRange c b (parseRange k e opts)))
   | ["rev"] => (s, s!"rev {match s.sg with | some g => g.g.committed | none => s.st.b.committed}")
-  | ["watch", name, key, _end, rev] => stepWatch s name key (parseInt rev)
+  | ["watch", name, key, stop, rev] => stepWatch s name key stop (parseInt rev)
   | ["wevents", name] => stepWevents s name
   | ["wcancel", name] =>
     -- the hub drops the subscription; the client sees a cancel answer (compact_revision 0)
@@ -317,6 +320,14 @@ def step (s : State) (toks : List String) : State × String :=
   | ["put", _, _] => (s, "put err unsupported")
   | ["delrange", _, _] => (s, "delrange err unsupported")
   | ["compact", r] => (s, s!"compact hdr={toU64 (parseInt r)}")
+  | ["bcompact", r] =>
+    -- the node's own compaction (`backend.Compact`; the etcd `Compact` RPC above is a no-op): raises the floor
+    if s.sg.isSome then (s, "bcompact bad-op") else
+    let (res, b) := doCompact c s.st.b (atou r) (fun _ => .ok)
+    match res with
+    | .ok hdr => ({ s with st := { s.st with b := b } }, s!"bcompact {hdr}")
+    | .error e => ({ s with st := { s.st with b := b } }, s!"bcompact err {errStr e}")
+    | .panic => ({ s with st := { s.st with b := b } }, "bcompact PANIC")
   | ["dump"] => (s, s!"dump {dumpStr s.st.b.store}")
   | "echo" :: _ => (s, " ".intercalate toks)
   | t :: _ => (s, s!"{t} bad-op")
